@@ -288,7 +288,35 @@ def gen_case(rng, tier):
         if rng.random() < 0.4:
             inc.append(['other', '{s}'])
         meta.append(f'family:existing-braces-{kind}')
-    elif r < 0.10:
+    elif r < 0.11:
+        # a list merged into an existing list whose incoming members (2nd and later) read the
+        # destination list itself or a mapping above it: they must see it as it was before
+        dest = rng.choice(['hist', 'log', 'a'])
+        old_items = rng.choice([[1], ['a'], [1, 2], []])
+        nested = rng.random() < 0.45
+        top = 'cfg' if nested else dest
+        ref = f'{{cfg[{dest}]}}' if nested else '{' + dest + '}'
+        name = ['index', ['name', 'cfg'], ['str', dest]] if nested else ['name', dest]
+        pool = [ref, {'py': ['len', name]}, {'py': ['add', name, ['list', [['int', 9]]]]},
+                {'py': name}, 'n={' + (f'cfg[{dest}]' if nested else dest) + '}']
+        if nested:
+            pool.append('{cfg}')
+        if old_items:
+            pool.append({'py': ['index', name, ['int', 0]]})
+        members = [rng.choice(['b', 'x', 7])] + rng.sample(pool, rng.randrange(1, 4))
+        if rng.random() < 0.3:
+            members.insert(0, rng.choice(pool))
+        ctx = [p for p in ctx if p[0] != top]
+        if nested:
+            ctx.append(['cfg', {'d': [['name', 'n'], [dest, {'l': old_items}]]}])
+            inc = [['cfg', {'d': [[dest, {'l': members}]]}]]
+        else:
+            ctx.append([dest, {'l': old_items}])
+            inc = [[dest, {'l': members}]]
+        if rng.random() < 0.4:
+            inc.append(['other', '{s}'])
+        meta.append('family:list-members-read-destination' + ('-nested' if nested else ''))
+    elif r < 0.13:
         # a key that reads a key merged a moment earlier
         inc = [['k1', rng.choice(['b', 'c', 'fresh'])], ['{k1}', env.value(rng.choice(KINDS), 1, True)],
                ['later', '{fresh}' if rng.random() < 0.3 else '{k1}']]
